@@ -20,7 +20,7 @@ BUILDS = {"quick": ["py"], "thorough": ["py", "cy"]}
 
 def find_nodes(tree, prefix=()):
     out = []
-    for c in tree.get("children") or []:
+    for c in (tree.get("children") or []) + (tree.get("late") or []):
         if isinstance(c, dict) and "name" in c:
             out.append((prefix + (c["name"],), c))
             out += find_nodes(c, prefix + (c["name"],))
@@ -61,6 +61,8 @@ def case_pair(ctx, spec):
                 signature="c09:index",
             )
         # what the parent sees
+        if child.name not in child.parent._universe.columns:
+            raise Violation("the universe of %s has no column for its sub-strategy %s (columns %s)" % (child.parent.full_name, child.name, [str(c) for c in child.parent._universe.columns]), signature="c09:universe-column-missing")
         u = np.asarray(child.parent._universe[child.name].loc[: root.now], dtype=float)
         seen = u[1:]  # the synthetic row is written too; compare all rows that were written
         if not np.allclose(u, p_nested, rtol=1e-12, atol=0, equal_nan=True):
@@ -75,6 +77,12 @@ def case_pair(ctx, spec):
     return {"nontrivial": nt, "labels": labs}
 
 
+def _strip_probes(spec):
+    for _, nd in gen.walk_nodes(spec["tree"]):
+        nd["algos"] = [a for a in nd.get("algos", []) if a[0] != "Probe"]
+    return spec
+
+
 def pair_spec():
     two = gen.backtest_spec(nested=True, deterministic_children=True, min_dates=4, max_dates=18)
     # three levels: a middle strategy allocating among its own sub-strategies (possibly by their price history), some of them unfunded for a while
@@ -82,8 +90,12 @@ def pair_spec():
     # leveraged / short children on jumpy prices: the definition may lose more than its capital, alone and inside the tree alike
     from . import c16
 
+    # sub-strategies attached after the parent was built (parent=), also to a parent that declared no children at all
+    from . import c19
+
+    late = c19.late_attach_spec().map(_strip_probes)
     lev = c16.run_spec(kinds=("nested",)).map(lambda sp: {k: v for k, v in sp.items() if k not in ("kind", "carry", "two_step", "ruinous_fee", "hedge_secs", "exact_zero")})
-    return st.one_of(two, two, three, lev)
+    return st.one_of(two, two, three, lev, late)
 
 
 SUBS = {"pair": case_pair}
